@@ -85,7 +85,7 @@ def reviewedCallbacks : List Callback := [
   -- GetBlock issues one getdata request
   ⟨N.«ChainService.GetBlock$handleResp», false⟩]
 
-def rVerdict := "the reader runs only after it has received the nil verdict of the query from errChan; the dispatcher sends that verdict after it has received the worker's result for the (single) job, and the worker reports after its last callback invocation: callback -> result -> verdict -> read"
+def rVerdict := "(valid for accesses confined to the success verdict: C18_ordered_only_on_success) the reader runs only after it has received the nil verdict of the query from errChan; the dispatcher sends that verdict after it has received the worker's result for the (single) job, and the worker reports after its last callback invocation: callback -> result -> verdict -> read"
 
 /-- Conflicting pairs ordered by channel communication rather than by a mutex (reviewed). -/
 def ordered : List Ordered := [
